@@ -90,7 +90,19 @@ func shiftedOf(c int) int {
 
 // legacy forms of functional keys
 var letterFinals = []int{'A', 'B', 'C', 'D', 'E', 'F', 'H', 'P', 'Q', 'R', 'S'}
-var ss3Finals = []int{'A', 'B', 'C', 'D', 'F', 'H', 'P', 'Q', 'R', 'S'}
+var ss3Finals = []int{'A', 'B', 'C', 'D', 'E', 'F', 'H', 'P', 'Q', 'R', 'S'}
+
+// application keypad (DECKPAM, which Vaxis itself requests): SS3 final, key,
+// and the key's number in the kitty protocol (driver side: used to aim probes
+// and to pair the two encodings; the oracle has its own tables)
+var keypadFinals = []struct {
+	fin   int
+	name  string
+	kitty int
+}{{'M', "KP_ENTER", 57414}, {'X', "KP_EQUAL", 57415}, {'j', "KP_MULTIPLY", 57411}, {'k', "KP_ADD", 57413},
+	{'l', "KP_SEPARATOR", 57416}, {'m', "KP_SUBTRACT", 57412}, {'n', "KP_DECIMAL", 57409}, {'o', "KP_DIVIDE", 57410},
+	{'p', "KP_0", 57399}, {'q', "KP_1", 57400}, {'r', "KP_2", 57401}, {'s', "KP_3", 57402}, {'t', "KP_4", 57403},
+	{'u', "KP_5", 57404}, {'v', "KP_6", 57405}, {'w', "KP_7", 57406}, {'x', "KP_8", 57407}, {'y', "KP_9", 57408}}
 var tildeNums = []int{1, 2, 3, 4, 5, 6, 7, 8, 11, 12, 13, 14, 15, 17, 18, 19, 20, 21, 23, 24, 25, 26, 28, 29, 31, 32, 33, 34, 57427}
 var letterName = map[int]string{'A': "UP", 'B': "DOWN", 'C': "RIGHT", 'D': "LEFT", 'E': "KP_BEGIN", 'F': "END", 'H': "HOME",
 	'P': "F1", 'Q': "F2", 'R': "F3", 'S': "F4"}
@@ -338,7 +350,7 @@ var escIntro = map[int]bool{'O': true, 'P': true, 'X': true, '[': true, ']': tru
 
 func (g *Gen) esc() {
 	var items []Item
-	for b := 48; b <= 127; b++ {
+	for b := 32; b <= 127; b++ {
 		if escIntro[b] {
 			continue
 		}
@@ -364,12 +376,112 @@ func (g *Gen) esc() {
 
 func (g *Gen) ss3() {
 	var items []Item
+	assigned := map[int]bool{}
 	for _, f := range ss3Finals {
+		assigned[f] = true
 		it := Item{Enc: kc.Enc{K: "ss3", B: f}}
 		attach(&it, info{code: kc.FK(letterName[f])}, g.Rng, 2)
 		items = append(items, it)
 	}
+	for _, kp := range keypadFinals {
+		assigned[kp.fin] = true
+		it := Item{Enc: kc.Enc{K: "ss3", B: kp.fin}}
+		attach(&it, info{code: kc.FK(kp.name)}, g.Rng, 2)
+		// the key of the main block that carries the same legend is another key
+		it.Probes = append(it.Probes, Probe{BK: mainBlockTwin(kp.name), BMs: []int{0, 1, 64}})
+		items = append(items, it)
+	}
 	g.emit("ss3", items, 5)
+	// finals to which no table assigns a key: exercised (no crash, the next
+	// report is not harmed), the outcome is not judged
+	items = nil
+	for f := 32; f <= 126; f++ {
+		if !assigned[f] {
+			items = append(items, Item{Enc: kc.Enc{K: "ss3", B: f}})
+		}
+	}
+	g.emit("ss3-unassigned", items, 10)
+}
+
+func mainBlockTwin(kp string) int {
+	switch kp {
+	case "KP_ENTER":
+		return 13
+	case "KP_EQUAL":
+		return '='
+	case "KP_MULTIPLY":
+		return '*'
+	case "KP_ADD":
+		return '+'
+	case "KP_SEPARATOR":
+		return ','
+	case "KP_SUBTRACT":
+		return '-'
+	case "KP_DECIMAL":
+		return '.'
+	case "KP_DIVIDE":
+		return '/'
+	}
+	return '0' + int(kp[3]-'0')
+}
+
+// pairs: two reports back to back in one read (fast typing, key repeat, a
+// terminal flushing several reports at once): each is decoded on its own.
+func (g *Gen) pairs() {
+	var items []Item
+	thens := []kc.Enc{{K: "char", Cps: []int{'a'}}, {K: "csi", Ps: [][]int{{1}, {5}}, Fin: 'A'}, {K: "c0", B: 13},
+		{K: "csi", Ps: [][]int{{97}, {6}}, Fin: 'u'}}
+	n := 0
+	add := func(e kc.Enc) {
+		if g.Thorough {
+			for _, t := range thens {
+				items = append(items, Item{Enc: e, Then: []kc.Enc{t}})
+			}
+			return
+		}
+		items = append(items, Item{Enc: e, Then: []kc.Enc{thens[n%len(thens)]}})
+		n++
+	}
+	for b := 32; b <= 127; b++ {
+		if !escIntro[b] {
+			e := kc.Enc{K: "esc", B: b}
+			items = append(items, Item{Enc: e, Then: []kc.Enc{thens[0]}}) // a text key behind every ESC-prefixed key
+			if b < 48 && b%4 == 0 || g.Thorough {
+				for _, t := range thens[1:] {
+					items = append(items, Item{Enc: e, Then: []kc.Enc{t}})
+				}
+			}
+		}
+	}
+	for b := 0; b < 32; b++ {
+		if b != 27 { // ESC + byte is a report of its own
+			add(kc.Enc{K: "c0", B: b})
+		}
+	}
+	for _, c := range []int{'a', 'Z', '.', ' ', 127, 0xE9, 0x424, 0x1F600} {
+		add(kc.Enc{K: "char", Cps: []int{c}})
+	}
+	for _, f := range ss3Finals {
+		add(kc.Enc{K: "ss3", B: f})
+	}
+	for _, kp := range keypadFinals {
+		add(kc.Enc{K: "ss3", B: kp.fin})
+	}
+	for _, f := range letterFinals {
+		add(kc.Enc{K: "csi", Fin: f})
+		add(kc.Enc{K: "csi", Ps: [][]int{{1}, {1 + g.Rng.Intn(256)}}, Fin: f})
+	}
+	for _, tn := range tildeNums {
+		add(kc.Enc{K: "csi", Ps: [][]int{{tn}}, Fin: '~'})
+	}
+	for _, c := range []int{97, 13, 27, 32, 46, 57399, 57414, 0x444} {
+		add(kc.Enc{K: "csi", Ps: [][]int{{c}}, Fin: 'u'})
+		add(kc.Enc{K: "csi", Ps: [][]int{{c}, {3, 1}}, Fin: 'u'})
+	}
+	// three in a row
+	items = append(items, Item{Enc: kc.Enc{K: "esc", B: 'x'}, Then: []kc.Enc{{K: "esc", B: '.'}, {K: "char", Cps: []int{'a'}}}},
+		Item{Enc: kc.Enc{K: "ss3", B: 'M'}, Then: []kc.Enc{{K: "ss3", B: 'A'}, {K: "c0", B: 9}}})
+	g.emit("pair", items, 12)
 }
 
 // modParam builds the second CSI parameter for mask m and event type t
@@ -680,7 +792,7 @@ func (g *Gen) xps() {
 			add(c, kc.Shift, info{code: c, mods: kc.Shift}, ku(c, 0, kc.Shift, nil, 4), ku(c, 0, kc.Shift|kc.Num, nil, 4))
 			add(c, kc.Shift, info{code: c, sh: up, mods: kc.Shift}, ku(c, up, kc.Shift, nil, 1|4), ku(c, up, kc.Shift|kc.Num, nil, 1|4))
 		}
-		if c < 48 || c > 126 || escIntro[c] {
+		if c < 32 || c > 126 || escIntro[c] {
 			continue
 		}
 		add(c, kc.Alt, info{code: c, mods: kc.Alt}, kc.Enc{K: "esc", B: c}, ku(c, 0, kc.Alt, nil, 4), ku(c, 0, kc.Alt, nil, 4|8))
@@ -716,10 +828,7 @@ func (g *Gen) xps() {
 	csi := func(fin int, ps ...[]int) kc.Enc { return kc.Enc{K: "csi", Ps: ps, Fin: fin} }
 	for _, f := range letterFinals {
 		n := letterName[f]
-		encs := []kc.Enc{csi(f), csi(f, []int{1}), csi(f, []int{1}, []int{1, 1})}
-		if f != 'E' {
-			encs = append(encs, kc.Enc{K: "ss3", B: f})
-		}
+		encs := []kc.Enc{csi(f), csi(f, []int{1}), csi(f, []int{1}, []int{1, 1}), {K: "ss3", B: f}}
 		for tn, name := range tildeName {
 			if name == n {
 				encs = append(encs, csi('~', []int{tn}), csi('~', []int{tn}, []int{1, 1}))
@@ -742,6 +851,10 @@ func (g *Gen) xps() {
 			}
 			fk(n, m, encs...)
 		}
+	}
+	// application keypad: SS3 final and the kitty number of the same key
+	for _, kp := range keypadFinals {
+		fk(kp.name, 0, kc.Enc{K: "ss3", B: kp.fin}, csi('u', []int{kp.kitty}), csi('u', []int{kp.kitty}, []int{1, 1}))
 	}
 	for _, tn := range []int{2, 3, 5, 6, 15, 17, 24} {
 		fk(tildeName[tn], 0, csi('~', []int{tn}), csi('~', []int{tn}, []int{1}), csi('~', []int{tn}, []int{1, 1}))
@@ -855,6 +968,7 @@ func Generate(seed int64, thorough bool) []*Scn {
 	g.c0()
 	g.esc()
 	g.ss3()
+	g.pairs()
 	g.funcKeys()
 	g.kitty()
 	g.grids()
